@@ -60,13 +60,14 @@ def run(ctx):
     lib.coq_make(["theories/Search.vo"])
     n_prog = ctx.pick(40, 400)
     N = ctx.pick(5, 7)
-    progs = lib.replay_programs(ctx) or list(gen.corpus())
+    progs = lib.replay_programs(ctx) or (list(gen.corpus()) + [(p, g, t) for p, g, t, _ in gen.abstraction_corpus()])
+    abs_sup = {P.prog_text(p): s for p, _, _, s in gen.abstraction_corpus()}
     while len(progs) < n_prog and not ctx.replay:
         g = gen.G(ctx.rng, max_depth=ctx.rng.choice([1, 2]))
         p = g.program()
         progs.append((p, g.goals(2), "+".join(sorted(g.features))))
     tasks = [{"kind": "analyze", "text": P.prog_text(p), "goals": [gen.goal_text(m) for m in goals], "nvals": N + 1,
-              "timeout": 150, "all_monomials": True} for p, goals, _ in progs]
+              "timeout": 150, "all_monomials": True, "abs_support": abs_sup.get(P.prog_text(p), {})} for p, goals, _ in progs]
     results = lib.run_tasks(tasks, timeout=150)
     # oracle on all accepted programs
     ocases, omap = [], []
